@@ -119,6 +119,11 @@ func (h *handler1) run(ctx context.Context, snConn net.Conn) {
 	h.log.Debug("Handler starts.")
 	defer h.log.Debug("Handler quits.")
 
+	// Cancelled when run returns so that no goroutine started below can
+	// outlive the handler.
+	ctx, cancel := context.WithCancel(ctx)
+	defer cancel()
+
 	var groupCtx context.Context
 	h.group, groupCtx = errgroup.WithContext(ctx)
 
@@ -166,6 +171,9 @@ func (h *handler1) run(ctx context.Context, snConn net.Conn) {
 			if err := h.snSend(snPkt); err != nil {
 				h.log.Error("Error sending CONNACK to a connection: %s", err)
 			}
+			// Stop the goroutine waiting for groupCtx and wait for it.
+			cancel()
+			h.group.Wait()
 			return
 		}
 	}
